@@ -8,6 +8,11 @@ CLAIMED = {
    technique="stateless model checking of the implementation: exhaustive interleaving exploration (controlled scheduler, happens-before caching) + bounded-exhaustive operation sequences against a reference model",
    text="Every insert/delete sequence up to depth 5 (6 thorough) over 2 keys with non-monotone/repeated sequence numbers is run on the real MemTable and compared with a reference multi-version map (Get, full iteration order, Seek, immutability). Every interleaving of one writer with one or two lock-free readers (Get, Seek, Contains, full iteration, reader on a table that turns immutable) is explored on the real skiplist with atomics and locks as scheduling points — unbounded for 1 reader, deviation bound 3 (quick) / unbounded (thorough) for 2 readers.",
    note="Trusted: Go runtime, the shims' faithfulness to sync/atomic (SC interleavings of visible operations; weak-memory effects and data races are C07's subject). Bounds: 2 keys, <=3 writer operations, <=2 readers."),
+ "C11": dict(
+   level="exploration", design="§3 C11, §2.3",
+   technique="bounded-exhaustive enumeration of table shapes x seek targets, and exhaustive single-byte damage enumeration, on the real SSTable writer/reader",
+   text="Every table shape of the alphabet (entry counts around the restart interval 16, all tombstone masks up to 4/6 entries, empty values, prefix/binary/long keys, 2-5 block tables) is written with the real Writer and read back with the real Reader: forward iteration must equal the written list (key, value, deletion flag, sequence number), Seek to every key/gap/end followed by iteration to the end, SeekToLast, Get of every key and every non-key. Every single byte of the small files (and head/stride/tail positions of the multi-block file) is damaged with three value classes; open+iterate+get must fail with an error or yield only written entries - a panic, fatal error, fabricated or disordered entry is a violation.",
+   note="Trusted: Go runtime, tmpfs. Not covered: multi-byte damage, keys > 302 B, values > 20 KiB. A worker killed by a fatal error is reported with the case it was evaluating."),
 }
 
 ALL = ["C%02d" % i for i in range(1, 21)]
